@@ -428,7 +428,122 @@ pub fn rand_lef(rng: &mut Rng, cfg: &LefCfg) -> GenLef {
         .collect();
     lib.vias = (0..rng.usize(3)).map(|_| rand_via(rng)).collect();
     lib.macros = (0..rng.usize(cfg.max_macros + 1)).map(|_| rand_macro(rng, cfg, old)).collect();
+    if rng.bool() {
+        add_coincidences(rng, &mut lib);
+    }
     GenLef { lib, ext_tokens }
+}
+
+/// Real LEF is full of coincidences that independent random draws almost never produce: FOREIGN naming the macro itself, the same
+/// SITE defined twice, every pin on the same layer with the same WIDTH, Manhattan outlines (consecutive vertices sharing a coordinate),
+/// doubled vertices, dot paths, explicitly closed rings, the same shape twice in a row, one name used for two kinds of object.
+/// This pass rewrites a generated library so that such coincidences occur often.
+fn add_coincidences(rng: &mut Rng, lib: &mut LefLibrary) {
+    if !lib.sites.is_empty() && rng.chance(1, 3) {
+        let s = rng.pick(&lib.sites).clone();
+        lib.sites.push(s);
+    }
+    let pool_layer = rand_name(rng, "met");
+    let pool_width = rand_pos_dec(rng);
+    let site_name = lib.sites.first().map(|s| s.name.clone());
+    let fix_points = |rng: &mut Rng, pts: &mut Vec<LefPoint>| {
+        if pts.len() >= 2 {
+            match rng.below(6) {
+                0 => {
+                    // Manhattan: alternate shared y / shared x between consecutive vertices
+                    for k in 1..pts.len() {
+                        if k % 2 == 1 {
+                            pts[k].y = pts[k - 1].y;
+                        } else {
+                            pts[k].x = pts[k - 1].x;
+                        }
+                    }
+                }
+                1 => {
+                    let k = rng.usize(pts.len());
+                    let c = pts[k].clone();
+                    pts.insert(k, c); // a doubled vertex
+                }
+                2 => {
+                    let c = pts[0].clone();
+                    pts.push(c); // explicitly closed ring
+                }
+                3 => {
+                    let c = pts[0].clone();
+                    *pts = vec![c.clone(), c]; // a dot
+                }
+                _ => {}
+            }
+        }
+    };
+    let fix_layers = |rng: &mut Rng, layers: &mut Vec<LefLayerGeometries>| {
+        for l in layers.iter_mut() {
+            if rng.chance(2, 3) {
+                l.layer_name = pool_layer.clone();
+            }
+            if rng.chance(1, 2) {
+                l.width = Some(pool_width);
+            }
+            for g in l.geometries.iter_mut() {
+                let shape = match g {
+                    LefGeometry::Shape(s) => s,
+                    LefGeometry::Iterate { shape, .. } => shape,
+                };
+                match shape {
+                    LefShape::Polygon(_, pts) => {
+                        fix_points(rng, pts);
+                        if pts.len() < 3 {
+                            let c = pts[0].clone();
+                            pts.push(c); // keep polygons at three points or more
+                        }
+                    }
+                    LefShape::Path(_, pts) => fix_points(rng, pts),
+                    LefShape::Rect(_, a, b) => {
+                        if rng.chance(1, 8) {
+                            *b = a.clone(); // zero-area rectangle
+                        }
+                    }
+                }
+            }
+            if !l.geometries.is_empty() && rng.chance(1, 3) {
+                let k = rng.usize(l.geometries.len());
+                let c = l.geometries[k].clone();
+                l.geometries.insert(k, c); // the same shape twice in a row
+            }
+        }
+        if layers.len() >= 1 && rng.chance(1, 4) {
+            let c = layers[0].clone();
+            layers.push(c); // the same LAYER block again
+        }
+    };
+    for m in lib.macros.iter_mut() {
+        match rng.below(4) {
+            0 => m.foreign = Some(LefForeign { cell_name: m.name.clone(), pt: None, orient: None }),
+            1 => {
+                if let Some(f) = m.foreign.as_mut() {
+                    f.cell_name = m.name.clone();
+                }
+            }
+            _ => {}
+        }
+        if let (Some(sn), true) = (&site_name, rng.chance(1, 3)) {
+            m.site = Some(sn.clone());
+        }
+        fix_layers(rng, &mut m.obs);
+        let mname = m.name.clone();
+        for pin in m.pins.iter_mut() {
+            if rng.chance(1, 8) {
+                pin.name = mname.clone(); // a pin named like its macro
+            }
+            for port in pin.ports.iter_mut() {
+                fix_layers(rng, &mut port.layers);
+            }
+        }
+        if m.pins.len() >= 2 && rng.chance(1, 6) {
+            let c = m.pins[0].clone();
+            m.pins.push(c); // an identical pin statement repeated
+        }
+    }
 }
 
 // ------------------------------------------------------------------ renderer
